@@ -32,6 +32,18 @@ CLAIMED['C20'] = dict(
     technique='TLA+ interleaving model + TLC (safety, deadlock, liveness); forced-schedule replay on real threads; exhaustive case replay',
     design_ref='3/C20')
 
+CLAIMED['C11'] = dict(
+    text=('Checkpoint.tla models a save as one action per file-system operation (legacy msgpack and Orbax back-ends) with Crash enabled '
+          'at every point; TLC checks exhaustively (4 steps, 3-4 saves, 1-2 crashes, keep/keep_every/overwrite) that final names never hold '
+          'partial content, retention after every completed save equals the declarative policy, no retained checkpoint is lost in any '
+          'crash state, the legacy back-end rejects old steps. Histories with crash points sampled by tlc -simulate are replayed on the real '
+          'save_checkpoint with a crash-and-freeze interposer on flax.io / os (torn writes included, both flax.io modes, int/float/negative/'
+          'exponent step renderings, several prefixes); directory, latest_checkpoint, available_steps and restore_checkpoint are compared '
+          'after every event. AsyncManager: every interleaving of caller and worker at flax.io granularity (deterministic scheduler, DFS) '
+          'must give the synchronous result predicted by the specification.'),
+    technique='TLA+ crash/recovery model + TLC; fault-injection replay of TLC histories on the real code; forced async schedules',
+    design_ref='3/C11')
+
 NOT_YET = 'check not built yet in this round (planned, see DESIGN.md section 3); not claimed until its specification is bound to the code'
 ALL = ['C%02d' % i for i in range(1, 21)]
 
